@@ -18,6 +18,49 @@ CHECKS = {
              "Hopcroft-Karp is not transliterated: its outputs are certified per explored instance, not for all graphs. "
              "fastHitWindows = |ref-est|<=w is compared (exact lattice), not yet proved.",
         design="§4.1, §5 C05"),
+    "C01": dict(
+        text="Lean 4 proofs that every hit-based precision/recall/F (any feasibility predicate, any inputs incl. empty "
+             "and duplicated, any beta) and util.f_measure lie in [0,1] and that hit counts never exceed either side; "
+             "task-specific range theorems in Props/C01_<Task>.lean as they land. The model is tied to the code by value "
+             "correspondence of the metric functions on the exact lattice; the range claim itself is searched on the "
+             "real evaluate() of all 13 task modules with generators biased to degenerate shapes.",
+        note="Proved for the hit-based family and F; entropy-based scores (information gain, NCE/V, NMI, AMI) and the "
+             "per-task closed forms not yet covered by a theorem are supported by correspondence and the oracle only "
+             "(listed as unproved sub-claims in the evidence). Known findings: Cemgil > 1, standard_FPR precision > 1, "
+             "pairwise/Rand 0/0, NMI rounding noise.",
+        design="§5 C01"),
+    "C02": dict(
+        text="Lean 4 proof that any non-empty annotation scored against a copy of itself under a criterion that accepts "
+             "identical items gets P = R = F = 1 (all hit-based metrics, any window >= 0, any beta), via max_reflexive; "
+             "per-task perfect-estimate theorems in Props/C02_<Task>.lean; oracle: evaluate(x, copy(x)) on "
+             "non-degenerate x for all 13 tasks must give the optimum of every score.",
+        note="Non-degeneracy predicates are those of the statement (>= 5 beats, a voiced frame, an in-gamut chord, a "
+             "reference triple for hierarchy, two labels at frame level for NCE). Beat heuristics and entropy scores: "
+             "oracle + correspondence unless a task theorem is listed in the evidence.",
+        design="§5 C02"),
+    "C06": dict(
+        text="Lean 4 proof that exchanging reference and estimate (with the criterion's roles exchanged) exchanges "
+             "precision and recall and keeps F at beta=1 for every hit-based metric (transpose of the feasibility "
+             "graph preserves the maximum matching size), instantiated for symmetric windows; per-task swap theorems "
+             "in Props/C06_<Task>.lean; oracle: evaluate(a,b) vs evaluate(b,a) on inputs admissible in both roles.",
+        note="Offset-tolerant note matching is not symmetric (tolerance scales with the reference duration) and is not "
+             "claimed, as in the statement.",
+        design="§5 C06"),
+    "C07": dict(
+        text="Lean 4 proof that a criterion accepting a superset of pairs never lowers hits, precision, recall or F "
+             "(max_mono + monotonicity of F in P and R, any beta), instantiated for event windows; per-task tolerance "
+             "and nesting theorems in Props/C07_<Task>.lean; oracle: ascending tolerance ladders and nested score pairs "
+             "on the real evaluate().",
+        note="Tolerance ladders contain lattice-adjacent and threshold-coincident values on the exact lattice.",
+        design="§5 C07"),
+    "C08": dict(
+        text="Lean 4 proofs that windowed hit counts (hence P/R/F) are invariant under a common time shift, under any "
+             "transformation the criterion cannot see, and under any permutation of the reference or estimated items "
+             "(index-bijection from List.Perm + max_relabel); per-task theorems in Props/C08_<Task>.lean; oracle: "
+             "shift by lattice offsets, shuffles, random injective relabelings on the real evaluate().",
+        note="Scores that depend on WHICH maximum matching is returned (average overlap ratio) are not claimed "
+             "permutation invariant, as in the statement (precision/recall/F only).",
+        design="§5 C08"),
 }
 
 NOT_YET = "check not built yet (work in progress; see DESIGN.md §9)"
